@@ -184,6 +184,24 @@ pub fn good_px_guarded(xs: &[u32]) -> u32 {
     *xs.iter().max().unwrap()
 }
 
+pub fn bad_px_str_offset(name: &str) -> &str {
+    match name.len().checked_sub(3) {
+        Some(idx) => &name[idx..],
+        None => name,
+    }
+}
+
+pub fn good_px_str_offset(line: &str) -> &str {
+    line.find("//").map_or(line, |i| &line[..i])
+}
+
+pub fn good_px_str_offset_direct(line: &str) -> &str {
+    match line.find(':') {
+        Some(i) => &line[..i],
+        None => line,
+    }
+}
+
 pub fn bad_u8_non_utf8<W: Write>(w: &mut W) -> io::Result<()> {
     w.write_all(b"\xff\xfe")
 }
